@@ -5,6 +5,8 @@
 //!   whitespace perturbation, and over every .glu file of /repo/std and /repo/examples.
 #[path = "c10/corr.rs"]
 mod corr;
+#[path = "c10/docs.rs"]
+mod docs;
 #[path = "c10/gen.rs"]
 mod gen;
 #[path = "c10/lex.rs"]
@@ -213,6 +215,82 @@ impl<'a> Runner<'a> {
                 self.report(origin, base, toks, ins, crlf, &text, f);
                 (true, false)
             }
+        }
+    }
+
+    /// The property at another line width (hook `verif_pretty_expr_width`), for an input that
+    /// satisfies it at the default width; also: the hook at width 100 must reproduce
+    /// `format_expr`, and the token text (non-whitespace characters except commas, the
+    /// trailing comma being the one width-dependent token) must be the same at every width.
+    fn run_widths(&mut self, origin: &str, text: &str) {
+        const WIDTHS: [usize; 5] = [24, 50, 80, 130, 220];
+        if let (oracle::Fmt::Ok(a), oracle::Fmt::Ok(b)) =
+            (oracle::format(&self.vm, text), oracle::format_width(&self.vm, text, 100))
+        {
+            if a != b {
+                self.fail_plain("hook-differs-at-100", origin, text, "verif_pretty_expr_width(100) ≠ format_expr");
+                return;
+            }
+        }
+        let strip = |s: &str| -> String { s.chars().filter(|c| !c.is_whitespace() && *c != ',').collect() };
+        let mut toks: Option<String> = None;
+        for w in WIDTHS {
+            self.out.count("oracle:width-inputs");
+            let class = if w < 100 { "narrow" } else { "wide" };
+            match oracle::check_width(&self.vm, text, w) {
+                Verdict::Skip(why) => self.out.count(&format!("oracle:width-skip:{}", why)),
+                Verdict::Pass => {
+                    self.out.count("oracle:width-pass");
+                    self.out.class(format!("width-pass:{}:{}", origin, w));
+                }
+                Verdict::Fail(f) => {
+                    let fp = format!("{}:{}:width-{}:{}", f.kind, origin, class, failure_tag(&f));
+                    let what = format!(
+                        "at line width {}: {}: {} | input {:?}{}",
+                        w,
+                        f.kind,
+                        f.detail.chars().take(240).collect::<String>(),
+                        text.chars().take(200).collect::<String>(),
+                        match &f.formatted {
+                            Some(o) => format!(" -> output {:?}", o.chars().take(200).collect::<String>()),
+                            None => String::new(),
+                        }
+                    );
+                    self.emit(&fp, &what, text, origin, Some(w));
+                    continue;
+                }
+            }
+            if let oracle::Fmt::Ok(o) = oracle::format_width(&self.vm, text, w) {
+                let t = strip(&o);
+                match &toks {
+                    None => toks = Some(t),
+                    Some(t0) if *t0 != t => {
+                        self.fail_plain("tokens-depend-on-width", origin, text, &format!("token text at width {} differs from width {}", w, WIDTHS[0]));
+                        return;
+                    }
+                    _ => {}
+                }
+            }
+        }
+    }
+
+    fn fail_plain(&mut self, kind: &str, origin: &str, text: &str, what: &str) {
+        let fp = format!("{}:{}", kind, origin);
+        let what = format!("{}: {} | input {:?}", kind, what, text.chars().take(200).collect::<String>());
+        self.emit(&fp, &what, text, origin, None);
+    }
+
+    fn emit(&mut self, fp: &str, what: &str, text: &str, origin: &str, width: Option<usize>) {
+        let what = what.replace('\n', " ").replace('\r', " ");
+        self.out.count(&format!("oracle:fail:{}", fp.split(':').next().unwrap_or("")));
+        self.out.class(format!("fail:{}", fp));
+        let e = self.seen.entry(fp.to_string()).or_insert((0, usize::MAX));
+        e.0 += 1;
+        if e.0 <= 2 || text.len() < e.1 {
+            e.1 = e.1.min(text.len());
+            self.out.oracle_fail(fp, &what, json!({"src": text, "origin": origin, "width": width}));
+        } else {
+            self.out.count("oracle:fail-not-written(same-fingerprint)");
         }
     }
 
@@ -486,6 +564,11 @@ fn run_program(r: &mut Runner, pi: u64, thorough: bool) {
         return;
     }
     r.run("gen:formatted-crlf", &q, &qtoks, &[], true);
+    // the property at other line widths, on the program as generated and as formatted
+    r.run_widths(&format!("gen:{}", style), &p);
+    if pi % 2 == 0 {
+        r.run_widths("gen:formatted", &q);
+    }
     for mode in 0..4u8 {
         let w = perturb_ws(&mut rng, &q, &qtoks, mode);
         if let Some(wt) = lex::tokenize(&w) {
@@ -518,6 +601,48 @@ fn run_program(r: &mut Runner, pi: u64, thorough: bool) {
             ins.push(Ins { gap: gi, style, text: comment_text(style, &format!("m{}x{}", k, j)) });
         }
         r.run("gen:multi:several-comments", &q, &qtoks, &ins, k % 3 == 0);
+    }
+}
+
+/// Width independence of the real TYPE printer (the formatter's own width is hard-coded to 100,
+/// format/src/lib.rs:44): the type of pool index `ti` rendered at several widths must have the
+/// same non-whitespace characters at every width. Deterministic in `ti`.
+fn run_type(r: &mut Runner, ti: u64) {
+    let mut rng = gv::rng::Rng::new(ti, 3030);
+    let long = ti % 2 == 0;
+    let ty = {
+        let mut g = gen::Gen::new(&mut rng, long, false, false);
+        g.typ(1 + (ti % 4) as u32)
+    };
+    let widths = [1usize, 10, 20, 40, 80, 200];
+    r.out.count("typewidth:inputs");
+    match oracle::type_at_widths(&ty, &widths) {
+        Err(_) => r.out.count("typewidth:skip:does-not-parse"),
+        Ok(rs) => {
+            let mut toks: Vec<(usize, String)> = vec![];
+            for (w, x) in widths.iter().zip(rs.iter()) {
+                match x {
+                    Ok(s) => toks.push((*w, s.chars().filter(|c| !c.is_whitespace()).collect())),
+                    Err(p) => {
+                        let fp = "panic:type-printer".to_string();
+                        r.out.oracle_fail(&fp, &format!("type printer panicked at width {}: {}", w, p), json!({"type": ty, "width": w}));
+                        return;
+                    }
+                }
+            }
+            let first = toks[0].1.clone();
+            if let Some((w, t)) = toks.iter().find(|(_, t)| *t != first) {
+                r.out.oracle_fail(
+                    "type-printer:tokens-depend-on-width",
+                    &format!("type {:?}: tokens at width 1 {:?} ≠ at width {} {:?}", ty, first, w, t),
+                    json!({"type": ty, "width": w}),
+                );
+            } else {
+                r.out.count("typewidth:pass");
+                let lines: usize = rs.iter().map(|x| x.as_ref().map_or(0, |s| s.lines().count())).max().unwrap_or(0);
+                r.out.class(format!("typewidth:depth{}:lines{}", 1 + ti % 4, lines.min(12)));
+            }
+        }
     }
 }
 
@@ -596,6 +721,19 @@ fn main() {
         let src = case["src"].as_str().expect("replay has no `src`");
         let vm = new_vm();
         println!("input:\n{}", src);
+        if let Some(w) = case.get("width").and_then(|w| w.as_u64()) {
+            match oracle::format_width(&vm, src, w as usize) {
+                oracle::Fmt::Ok(o) => println!("formatted at width {}:\n{}", w, o),
+                oracle::Fmt::Refused(e) => println!("REFUSED {}", e),
+                oracle::Fmt::Panic(p) => println!("PANIC {}", p),
+            }
+            match oracle::check_width(&vm, src, w as usize) {
+                Verdict::Pass => println!("verdict at width {}: pass", w),
+                Verdict::Skip(x) => println!("verdict: skip {}", x),
+                Verdict::Fail(f) => println!("verdict at width {}: FAIL {} — {}", w, f.kind, f.detail),
+            }
+            return;
+        }
         match oracle::format(&vm, src) {
             oracle::Fmt::Ok(o) => println!("formatted:\n{}", o),
             oracle::Fmt::Refused(e) => println!("REFUSED {}", e),
@@ -611,6 +749,9 @@ fn main() {
     let mut out = Out::new(&args.out);
     let mut rng = gv::rng::Rng::new(args.seed, 10);
     corr::run(&mut out, &mut rng, args.thorough());
+    // layout engine: real `pretty` vs the Lean model of `render::best`
+    let mut drng = gv::rng::Rng::new(args.seed, 4040);
+    docs::run(&mut out, &mut drng, args.thorough());
 
     let thorough = args.thorough();
     let mut r = Runner { vm: new_vm(), out: &mut out, seen: Default::default() };
@@ -636,6 +777,7 @@ fn main() {
     // closed: it is the set the full-pool sweep (`--sweep-programs A B`) reports, all listed in
     // known_findings.json for the unchanged tree. A change of gluon's source that creates a new
     // class is therefore a VIOLATION for every seed that selects an affected program.
+    let sweep_any = args.extra.iter().any(|a| a == "--sweep-programs" || a == "--sweep-files");
     if let Some(i) = args.extra.iter().position(|a| a == "--sweep-programs") {
         let a: u64 = args.extra[i + 1].parse().unwrap();
         let b: u64 = args.extra[i + 2].parse().unwrap();
@@ -651,6 +793,18 @@ fn main() {
         }
     }
     r.out.stats.insert("program_pool_size".into(), POOL.into());
+    // type printer at several widths (pool of the same size, seed selects)
+    if !sweep_any {
+        let n_ty = if thorough { 3000 } else { 400 };
+        for _ in 0..n_ty {
+            let ti = rng.below(POOL);
+            run_type(&mut r, ti);
+        }
+    } else if args.extra.iter().any(|a| a == "--sweep-files") {
+        for ti in 0..POOL {
+            run_type(&mut r, ti);
+        }
+    }
 
     // ---- every .glu file of the repository ------------------------------------------------
     let files = glu_files();
